@@ -1,6 +1,10 @@
 import CJ.Drv.Loop
-/-! Driver for C17 (stub until the models are written). -/
+import CJ.Drv.LogTaint
+/-! Driver for C17: error texts, `generalizeErr`, the flow description. -/
 open CJ.Drv
 
 def main : IO Unit := runDriver fun
+  | "gen" :: args => LogTaint.handleGen args
+  | "text" :: args => LogTaint.handleText args
+  | "flow" :: args => LogTaint.handleFlow args
   | _ => none
